@@ -266,12 +266,18 @@ Definition cw_create_config (allf cfgf : list cw_bytes) (nc : bool) (ty full : c
 (* Notification / Dependency / ScheduledDowntime / Comment / Downtime: `host!name` or `host!service!name`
    (`tokens.size() < 2` throws, with more than two tokens the first three are used).  hk / sk are the attribute
    names of the two leading parts (host_name, service_name; child_host_name, child_service_name for Dependency). *)
-Definition cw_name_parts3 (full : cw_bytes) : option (cw_bytes * cw_bytes * option cw_bytes) :=
+Definition cw_src_name3_exact : bool := match f_cw_composite_name_exact with Some b => b | None => false end.
+(* exact = false: the code as pinned (further parts dropped, an empty middle part accepted and then ignored by MakeName);
+   exact = true: at most three parts and a non-empty middle part are required *)
+Definition cw_name_parts3_m (exact : bool) (full : cw_bytes) : option (cw_bytes * cw_bytes * option cw_bytes) :=
   match cw_split 33 full [] with
   | h :: n :: [] => Some (n, h, None)
-  | h :: sv :: n :: _ => Some (n, h, Some sv)
+  | h :: sv :: n :: rest =>
+      if exact then (match rest with [] => if cw_beq sv [] then None else Some (n, h, Some sv) | _ => None end)
+      else Some (n, h, Some sv)
   | _ => None
   end.
+Definition cw_name_parts3 := cw_name_parts3_m cw_src_name3_exact.
 Definition cw_all_attrs3 (hk sk h : cw_bytes) (sv : option cw_bytes) (attrs : cw_dlist) (version : cw_value) : cw_dlist :=
   let a0 := cw_dcopy attrs DNil in
   let a1 := cw_dset hk (CwStr h) a0 in
